@@ -321,7 +321,9 @@ int main(int argc, char **argv) {
   for (auto &t : std::vector<std::vector<int>>{{6, 6, 6}, {6, 1, 7}, {7, 7, 6}}) progs.push_back({1, {{t[0]}, {t[1]}, {t[2]}}});
   // two threads x two operations
   if (th) {
-    for (int a = 0; a < NOPS; a++) for (int b = 0; b < NOPS; b++) for (int c = 0; c < NOPS; c++) for (int d = 0; d < NOPS; d++) {
+    // all two-operation sequences over the operations that copy, destroy or lazily initialise something
+    const int SUB[] = {1, 2, 6, 7, 9};
+    for (int a : SUB) for (int b : SUB) for (int c : SUB) for (int d : SUB) {
       if ((a == 7 && b == 7) || (c == 7 && d == 7)) continue;  // an owned copy can be destroyed once
       progs.push_back({0, {{a, b}, {c, d}}});
     }
@@ -359,9 +361,10 @@ int main(int argc, char **argv) {
   }
 
   const long MAXEXEC_BOUNDED = 400000;             // bounds 0,1,2 are expected to complete
-  const long MAXEXEC_UNBOUNDED = th ? 100000 : 6000; // extra executions granted to the unbounded search
+  const long MAXEXEC_UNBOUNDED = th ? 20000 : 6000; // extra executions granted to the unbounded search
   bool any_incomplete = false;
   for (auto &P : progs) {
+    if (H.elapsed() > H.deadline_s) { any_incomplete = true; break; }
     if (!H.take()) continue;
     g_visited = new std::unordered_map<uint64_t, int>();
     Stats S;
